@@ -58,6 +58,7 @@ class _Env:
         self.factory = G.IndexFactory(self.root)
         self.cond_abs = self.root / "COND"
         self.compute = compute_tasks_to_archive
+        self.wd = G.Watchdog()
         self.idents = [G.ident(i) for i in range(6)]
         self.id_index = {str(x): i for i, x in enumerate(self.idents)}
         self._raw = {}
@@ -87,16 +88,10 @@ def _eval_traverse(env, deps, root, tally):
     ti = env.index(deps, kinds)
     ctx = G.StubContext(env.root, ti)
     rid = env.idents[root]
-    ti.load_transitive_closure(rid)
+    env.wd.call(ti.load_transitive_closure, rid)  # pre-load as the CLI does; not under test here
     task = ti.get_task(rid)
     log = []
-    try:
-        task.traverse(ctx, lambda t: log.append(str(t.identifier)))
-        err = None
-    except Exception as ex:  # noqa: BLE001
-        if G.raised_by_harness(ex):
-            raise
-        err = ex
+    _, err = env.wd.call(task.traverse, ctx, lambda t: log.append(str(t.identifier)))
     closure = G.reach_star(deps, root)
     par = G.parents_within(deps, closure)
     tally.ev(TRAV, any(len(p) >= 2 for p in par.values()))
@@ -104,7 +99,9 @@ def _eval_traverse(env, deps, root, tally):
     size = (n, G.n_edges(deps), root)
     inp = G.graph_json(deps, kinds=kinds, extra={"root": G.task_id_str(root)})
     if err is not None:
-        tally.fail(TRAV, size, {"clause": "traverse", "class": "traverse-raised-" + type(err).__name__,
+        tally.fail(TRAV, size, {"clause": "traverse",
+                                "class": "non-termination" if isinstance(err, G.NonTermination)
+                                else "traverse-raised-" + type(err).__name__,
                                 "input": inp, "expected": want,
                                 "observed": "%s: %s" % (type(err).__name__, err)})
         return
@@ -131,13 +128,13 @@ def _eval_archive(env, deps, kinds, tally):
     tally.ev(ARCH, nontrivial)
     size = (n, G.n_edges(deps), sum(1 for k in kinds if k != "c"))
     inp = G.graph_json(deps, kinds=kinds, extra={"task_identifier": "//:t0"})
-    try:
-        got = env.compute(ctx, "//:t0")
-        none_case = env.compute(ctx, None)
-    except Exception as ex:  # noqa: BLE001
-        if G.raised_by_harness(ex):
-            raise
-        tally.fail(ARCH, size, {"clause": "archive", "class": "archive-raised-" + type(ex).__name__,
+    got, ex = env.wd.call(env.compute, ctx, "//:t0")
+    none_case, ex2 = env.wd.call(env.compute, ctx, None)
+    ex = ex or ex2
+    if ex is not None:
+        tally.fail(ARCH, size, {"clause": "archive",
+                                "class": "non-termination" if isinstance(ex, G.NonTermination)
+                                else "archive-raised-" + type(ex).__name__,
                                 "input": inp, "expected": want,
                                 "observed": "%s: %s" % (type(ex).__name__, ex)})
         return
@@ -173,10 +170,14 @@ def _worker(arg):
         trav += [(deps, 0) for deps in G.forward_dag_orders(5, 5)]
     first = (shard - item) % nshards
     for k in range(first, len(trav), nshards):
+        if env.wd.exhausted:
+            break
         _eval_traverse(env, trav[k][0], trav[k][1], tally)
-    if shard == 0:
-        for deps, r in trav[-3:]:
-            tally.sample(TRAV, G.graph_json(deps, extra={"root": G.task_id_str(r)}))
+    for k in range(first, len(trav), nshards):
+        deps, r = trav[k]
+        if len(deps) >= 3 and G.n_edges(deps) >= 3 and r == 0:
+            tally.sample(TRAV, G.graph_json(deps, extra={"root": G.task_id_str(r)}), limit=1)
+            break
     item += len(trav)
     # archive: forward DAGs x orders x kinds
     blocks = [(G.forward_dag_orders(n, n), list(itertools.product(_ARCH_ALPHA, repeat=n)))
@@ -188,11 +189,13 @@ def _worker(arg):
         first = (shard - item) % nshards
         for k in range(first, total, nshards):
             g, o = divmod(k, len(kl))
+            if env.wd.exhausted:
+                break
             _eval_archive(env, gos[g], kl[o], tally)
             if k == first and len(gos[g]) >= 3:
                 tally.sample(ARCH, G.graph_json(gos[g], kinds=kl[o], extra={"task_identifier": "//:t0"}))
         item += total
-    return tally
+    return tally, not env.wd.exhausted
 
 
 def run(tier, seed):
@@ -202,13 +205,14 @@ def run(tier, seed):
         tallies = G.run_sharded(_worker, {"tier": tier, "root": root}, nshards=G.n_processes() * 4)
     finally:
         shutil.rmtree(root, ignore_errors=True)
-    total = G.merge_tallies(tallies, NAMES)
+    total = G.merge_tallies([t for t, _ in tallies], NAMES)
+    complete = all(c for _, c in tallies)
     wall = time.time() - t0
     out = []
     for name, fn in ((TRAV, F_TRAVERSE), (ARCH, F_ARCHIVE)):
         c = total.get(name)
         out.append(result(
-            name, "C11", fn, _scope(name, tier), exhaustive=True, evaluations=c["ev"],
+            name, "C11", fn, _scope(name, tier), exhaustive=complete, evaluations=c["ev"],
             distinct_nontrivial=c["nt"], rule=RULES[name], failures=total.failures(name),
             samples=c["samples"], wall_s=wall, n_failures=c["nf"]))
     return out
